@@ -17,9 +17,9 @@ import (
 
 // fontSpec describes one of the small fonts a description is written for.
 type fontSpec struct {
-	Kind  string         // "names+cmap", "cmap", "bare", "mixed"
-	N     int            // number of glyphs (glyph 0 is .notdef)
-	Names []string       // nil: outlines without glyph names; "" = unnamed glyph
+	Kind  string   // "names+cmap", "cmap", "bare", "mixed"
+	N     int      // number of glyphs (glyph 0 is .notdef)
+	Names []string // nil: outlines without glyph names; "" = unnamed glyph
 	Runes map[rune]glyph.ID
 }
 
